@@ -321,8 +321,8 @@ def oracle_kde(case):
 
 
 SUBS = [
-    Sub('bisect', batch_strategy(), oracle_bisect, quick=1200, thorough=60000, use_target=True),
-    Sub('chandrupatla', batch_strategy(), oracle_chandrupatla, quick=1200, thorough=60000, use_target=True),
-    Sub('invalid_bracket', invalid_strategy(), oracle_invalid, quick=600, thorough=20000, use_target=True),
-    Sub('kde_inverse', kde_strategy(), oracle_kde, quick=300, thorough=16000, use_target=True),
+    Sub('bisect', batch_strategy(), oracle_bisect, quick=1200, thorough=120000, use_target=True),
+    Sub('chandrupatla', batch_strategy(), oracle_chandrupatla, quick=1200, thorough=120000, use_target=True),
+    Sub('invalid_bracket', invalid_strategy(), oracle_invalid, quick=600, thorough=40000, use_target=True),
+    Sub('kde_inverse', kde_strategy(), oracle_kde, quick=300, thorough=32000, use_target=True),
 ]
